@@ -336,7 +336,9 @@ def cropOp (P : Crop.Perms) (kind : Value.Val) (k : Nat) (s : Crop.St (List Sym)
   let nlL : List Sym → List Sym := fun r => r.map (symNanLikeK kind k)
   match getStr op "op" with
   | "new" => (Crop.opNew s (optNat op "bs") (optNat op "nb") (getNat op "shuffle"), Json.null)
-  | "reload" => (Crop.opNew s none none 0, Json.null)
+  | "reload" =>
+    -- `Crop(name=…, parent_dir=…)`; with `autoload=False` nothing is read from disk until the first progress query
+    (if getBool op "autoload" true then Crop.opNew s none none 0 else { s with obj := {} }, Json.null)
   | "sow" =>
     let sw := sweepOf (getObj op "sweep")
     let isCases := getBool op "cases"
